@@ -90,6 +90,20 @@ theorem ids_unique (x : Str → Option Str) (m : Module) (d : Doc) (h : «export
   subst hd
   exact defs_nodup x m hI
 
+/-- The identifier texts the code builds (`"_" + uuid.upper()`, `…--HIER`, `_<DEF>.<TYPE>--<KIND>`,
+`_STD-ATTRIBUTE-<TYPE>-ReqIF.<name>`, the `NULL-…` words, …) determine the identifier: two shaped
+identifiers with the same text are equal. Shaped = every uuid in it is hex digits and dashes. -/
+theorem render_injective (i j : Ident) (hi : i.Shaped) (hj : j.Shaped) (h : i.render = j.render) : i = j :=
+  render_inj hi hj h
+
+/-- All `IDENTIFIER` strings of an exported document are pairwise distinct, for every module whose
+uuids are hex-and-dash texts (after upper-casing) and identify its elements. -/
+theorem id_strings_unique (x : Str → Option Str) (m : Module) (d : Doc) (h : «export» x m = .ok d)
+    (hI : Identity m) (hS : UuidShaped m) : (d.defs.map Ident.render).Nodup := by
+  have hd := export_eq_doc x m d h
+  subst hd
+  exact rendered_defs_nodup x m hI hS
+
 /-! ## every requirement exactly once, in depth-first order -/
 
 /-- `m.dfs` lists exactly the requirements contained in the module, directly or in nested folders. -/
@@ -252,6 +266,13 @@ example : (∀ i ∈ (doc conv m0).refs, i ∈ (doc conv m0).defs) ∧ (doc conv
   have hI : Identity m0 := ⟨by decide, by decide, by decide⟩
   have hx := export_total_partial conv m0 rfl (fun _ => rfl) (by decide)
   ⟨refs_closed conv m0 _ hx hI m0Typed, ids_unique conv m0 _ hx hI⟩
+/-- its uuids are shaped once they look like uuids (here: a variant with hex-and-dash uuids), -/
+example : Ident.Shaped (.attrDef (some "0A-1".toList) none .string) ∧
+    (Ident.attrDef (some "0A-1".toList) none .string).render
+      = "_NULL-ATTRIBUTE-DEFINITION.0A-1--STRING".toList := by
+  constructor
+  · exact ⟨fun s hs => by cases hs; unfold UuidLike; decide, fun s hs => by cases hs⟩
+  · decide
 /-- the markup character of the plain-text name is escaped before conversion, -/
 example : ((specObject conv r1).std.map (·.theValue))[2]? = some (some "a&lt;b".toList) := by decide
 /-- and the integer value reads back. -/
